@@ -35,7 +35,7 @@ SHRINK_LISTS = ["ops"]
 def generate(rng, tier):
     world = gen_world(rng)
     ref = RefWorld(world)
-    n = rng.randint(1, 5)
+    n = rng.randint(1, 8 if tier == "thorough" else 5)
     ops = []
     for k in range(n):
         if rng.random() < 0.8:
